@@ -32,20 +32,27 @@ THEOREMS = ["QExPy.C20_valid_print_style",
             "QExPy.C20_temp_nested"]
 RULE = ("programs over the q.set_* functions (and the same setters through attributes of "
         "q.get_settings()), reset_default_configuration, reads and use_mc_sample_size wrappers "
-        "(returning / raising / nested bodies that themselves issue requests), arguments from the "
-        "alphabet enum member of each of the 4 enum classes / literal and non-literal strings / "
-        "ints / floats incl. nan, inf / bools / tuples of length 0-3 / None / list, dict, object, "
-        "numpy scalar and array; every option read after every call and compared with the Lean "
-        "state machine and with direct property oracles (atomicity, documented-value acceptance, "
-        "frame, reset = state of a NEW interpreter process, override restored); quick = exhaustive "
-        "single calls in 3 contexts + random programs of 5-30 statements, thorough = all sequences "
-        "up to length 4 over a per-length alphabet; non-trivial = the program contains a rejected "
-        "call between two accepted ones, or a raising/nested override; distinct by hash of the "
-        "program")
+        "(bodies that themselves issue requests, nest, and end by returning or by raising Boom / "
+        "ValueError / KeyboardInterrupt / SystemExit / GeneratorExit / a direct subclass of "
+        "BaseException; decorated right before the call or before the program starts), arguments "
+        "from the alphabet enum member of each of the 4 enum classes / literal strings, their "
+        "upper-case, capitalised, blank-padded and member-NAME variants and other strings / ints / "
+        "floats incl. nan, inf and numpy.float64 / bools / tuples of length 0-3 incl. numeric "
+        "strings / None / list, dict, object, numpy integer, float32 and array, Fraction, bytes; "
+        "every option read after every call and compared with the Lean state machine and with "
+        "direct property oracles (atomicity, documented-value acceptance, frame, reset = state of a "
+        "NEW interpreter process, override restored after every outcome); FunctionOnPlot.yvalues / "
+        "yerr with curve functions ending in each of these ways; quick = exhaustive single calls in "
+        "3 contexts + random programs of 5-30 statements, thorough = all sequences up to length 4 "
+        "over a per-length alphabet; non-trivial = the program contains a rejected call between two "
+        "accepted ones, or a raising/nested override; distinct by hash of the program")
 ASSUMPTIONS = ["the settings object is only reached through q.set_*, reset_default_configuration, "
                "attributes of q.get_settings() and use_mc_sample_size (no write to the private dict)",
-               "bool arguments (True is the int 1 in Python) and the AUTO member of ErrorMethod are "
+               "bool arguments (True is the int 1 in Python), the AUTO member of ErrorMethod and numbers "
+               "that are neither int nor float instances (numpy integers, numpy.float32, Fraction) are "
                "generated and followed by the model but their acceptance is not judged",
+               "the wrapped computation is an ordinary call with positional arguments (generator "
+               "functions and keyword arguments of the decorated function are outside the statement)",
                "single-threaded use"]
 TRUSTED = ["modelled not verified: CPython isinstance / `in` on lists / Enum lookup by value, "
            "try/finally semantics",
@@ -81,6 +88,32 @@ class Boom(Exception):
     """raised by wrapped bodies; must come out of the wrapper unchanged"""
 
 
+class BaseBoom(BaseException):
+    """a class derived directly from BaseException (like KeyboardInterrupt / SystemExit /
+    GeneratorExit it is not seen by `except Exception:`)"""
+
+
+# how a wrapped computation may end by raising: class name -> class.  The statement quantifies over
+# "all wrapped computations including those that raise": classes derived from Exception (Boom, and
+# ValueError = the class the setters themselves raise) and classes that are not (an interrupted
+# curve evaluation raises KeyboardInterrupt).
+RAISES = {"Boom": Boom, "ValueError": ValueError, "KeyboardInterrupt": KeyboardInterrupt,
+          "SystemExit": SystemExit, "GeneratorExit": GeneratorExit, "BaseBoom": BaseBoom}
+NON_EXCEPTION = [n for n, c in RAISES.items() if not issubclass(c, Exception)]
+
+
+def raise_name(s):
+    """the statement's "raise" key: absent / False = returns, True = Boom, or a name in RAISES"""
+    r = s.get("raise")
+    if not r:
+        return None
+    return "Boom" if r is True else str(r)
+
+
+def outcome_label(name):
+    return "raised:" + name if name else "ok"
+
+
 # ------------------------------------------------------------------ argument alphabet
 def A_enum(ty, m):
     return {"k": "enum", "ty": ty, "m": m}
@@ -94,13 +127,18 @@ def A_int(n):
     return {"k": "int", "v": n}
 
 
-def A_float(x):
+def A_float(x, np=False):
+    """a Python float; np=True: the same value as numpy.float64 (a subclass of float)"""
     if x != x:
-        return {"k": "float", "v": "nan"}
-    if math.isinf(x):
-        return {"k": "float", "v": "inf" if x > 0 else "-inf"}
-    n, d = float(x).as_integer_ratio()
-    return {"k": "float", "v": [n, d]}
+        a = {"k": "float", "v": "nan"}
+    elif math.isinf(x):
+        a = {"k": "float", "v": "inf" if x > 0 else "-inf"}
+    else:
+        n, d = float(x).as_integer_ratio()
+        a = {"k": "float", "v": [n, d]}
+    if np:
+        a["np"] = True
+    return a
 
 
 def A_bool(b):
@@ -122,6 +160,15 @@ def enum_members(q):
     return {ty: [m.name for m in getattr(q, ty)] for ty in ENUMS}
 
 
+# kinds of the extended alphabet: used for every single call in 3 contexts (both tiers) and by the
+# random programs, but left out of the exhaustive length-2 enumeration of the thorough tier
+EXT_KINDS = ("str:variant", "float:np", "tuple:ext", "other:ext")
+# numbers that are neither `int` nor `float` instances: the statement ("positive integers", "positive
+# numbers") is silent on them, the code refuses them, the model follows the code (`other`), and
+# their acceptance is not judged
+NOT_JUDGED_NUMBERS = ("np.int64", "np.float32", "Fraction")
+
+
 def alphabet(q):
     """full argument alphabet, each with a coarse kind label for the distribution"""
     out = []
@@ -134,10 +181,20 @@ def alphabet(q):
         out.append(("str:literal", A_str(s)))
     for s in ["", "Default", "DEFAULT", "DERIVATIVE", "bogus", "monte_carlo", "latex ", "5"]:
         out.append(("str:other", A_str(s)))
+    # near misses of every literal: other case, surrounding blanks, the member NAME instead of its
+    # value (a setter that normalises its argument accepts them)
+    have = {a["v"] for k, a in out if a["k"] == "str"}
+    names = sorted({m.name for ty in ENUMS for m in getattr(q, ty)})
+    for v in [f(x) for x in lits for f in (str.upper, str.capitalize, " {}".format, "{} ".format,
+                                            lambda t: t.replace("-", "_"))] + names:
+        if v not in have:
+            have.add(v)
+            out.append(("str:variant", A_str(v)))
     for n in [-1, 0, 1, 2, 7, 10 ** 6, 10 ** 20, -10 ** 20]:
         out.append(("int", A_int(n)))
     for x in [1.0, 2.5, 0.0, -1.5, 1e-300, float("inf"), float("-inf"), float("nan")]:
         out.append(("float", A_float(x)))
+    out += [("float:np", A_float(5.0, np=True)), ("float:np", A_float(2.5, np=True))]
     out += [("bool", A_bool(True)), ("bool", A_bool(False)), ("none", A_NONE)]
     tup = [A_tuple(A_float(6.4), A_float(4.8)), A_tuple(A_int(1), A_int(2)),
            A_tuple(A_float(1.5), A_int(3)), A_tuple(A_int(0), A_int(1)),
@@ -150,8 +207,15 @@ def alphabet(q):
            A_tuple(A_float(0.0), A_float(1.0)), A_tuple(A_enum("UnitStyle", mem["UnitStyle"][0]), A_int(1))]
     for t in tup:
         out.append(("tuple", t))
+    for t in [A_tuple(A_str("6.4"), A_float(4.8)), A_tuple(A_int(3), A_str("2")),
+              A_tuple(A_float(6.4, np=True), A_float(4.8)), A_tuple(A_other("np.int64"), A_int(4)),
+              A_tuple(A_other("np.float32"), A_int(1)), A_tuple(A_other("Fraction"), A_int(1)),
+              A_tuple(A_float(2.0), A_float(3.0), A_float(-1.0)), A_tuple(A_other("bytes"), A_int(1))]:
+        out.append(("tuple:ext", t))
     for w in ["list", "dict", "object", "np.int64", "np.array", "bytes"]:
         out.append(("other", A_other(w)))
+    for w in ["np.float32", "Fraction", "list3", "str-list"]:
+        out.append(("other:ext", A_other(w)))
     return out
 
 
@@ -167,18 +231,20 @@ def build(q, a):
         return int(a["v"])
     if k == "float":
         v = a["v"]
-        if isinstance(v, str):
-            return float(v)
-        return v[0] / v[1]
+        x = float(v) if isinstance(v, str) else v[0] / v[1]
+        return np.float64(x) if a.get("np") else x
     if k == "bool":
         return bool(a["v"])
     if k == "tuple":
         return tuple(build(q, x) for x in a["v"])
     if k == "none":
         return None
+    import fractions
     w = a.get("what", "object")
     return {"list": [6.4, 4.8], "dict": {"a": 1}, "object": object(), "np.int64": np.int64(5),
-            "np.array": np.array([1, 2]), "bytes": b"latex"}.get(w, object())
+            "np.array": np.array([1, 2]), "bytes": b"latex", "np.float32": np.float32(2.5),
+            "Fraction": fractions.Fraction(5, 1), "list3": [1, 2, 3],
+            "str-list": ["latex"]}.get(w, object())
 
 
 def model_arg(a):
@@ -187,6 +253,8 @@ def model_arg(a):
         return {"k": "tuple", "v": [model_arg(x) for x in a["v"]]}
     if a["k"] == "other":
         return {"k": "other"}
+    if a["k"] == "float":
+        return {"k": "float", "v": a["v"]}
     return a
 
 
@@ -194,7 +262,10 @@ def model_prog(prog):
     out = []
     for s in prog:
         if s["op"] == "temp":
-            out.append({"op": "temp", "size": model_arg(s["size"]), "raise": bool(s.get("raise")),
+            name = raise_name(s)
+            out.append({"op": "temp", "size": model_arg(s["size"]),
+                        "raise": {"cls": name, "exc": issubclass(RAISES[name], Exception)}
+                        if name else False,
                         "body": model_prog(s["body"])})
         elif "arg" in s:
             out.append({"op": s["op"], "arg": model_arg(s["arg"])})
@@ -269,31 +340,67 @@ def fresh_process_state():
 
 
 def execute(q, prog, via_attr=False):
-    """run a program on the real singleton; returns the trace in the model's format"""
+    """run a program on the real singleton; returns the trace in the model's format.
+    A temp statement marked "early" is decorated before the program starts (the way
+    plotobjects.py decorates at import time), the others right before their call; temp statements
+    with the same size share one `use_mc_sample_size(size)` decorator."""
     import qexpy.settings.settings as S
     trace = []
+    decos = {}
+
+    def prepare(s):
+        token = object()
+        name = raise_name(s)
+        exc = RAISES[name](id(token)) if name else None
+
+        def body():
+            trace.append({"t": "enter", "cfg": state(q)})
+            run(s["body"])
+            if exc is not None:
+                raise exc
+            return token
+        key = json.dumps(s["size"], sort_keys=True, default=str)
+        try:
+            if key not in decos:
+                decos[key] = S.use_mc_sample_size(build(q, s["size"]))
+            fn = decos[key](body)
+        except Exception:  # noqa: BLE001  (a decorator that validates its size when it is applied)
+            fn = None
+        return token, name, exc, fn
+
+    early = {}
+
+    def pre(stmts):
+        for s in stmts:
+            if s["op"] == "temp":
+                if s.get("early"):
+                    early.setdefault(id(s), []).append(prepare(s))
+                pre(s["body"])
 
     def run(stmts):
         for s in stmts:
             op = s["op"]
             if op == "temp":
-                token = object()
-                size = build(q, s["size"])
-
-                def body(s=s, token=token):
-                    trace.append({"t": "enter", "cfg": state(q)})
-                    run(s["body"])
-                    if s.get("raise"):
-                        raise Boom(id(token))
-                    return token
+                token, name, exc, fn = early[id(s)].pop(0) if early.get(id(s)) else prepare(s)
                 res = None
+                # BaseException: the body may end in KeyboardInterrupt / SystemExit / GeneratorExit,
+                # which must neither kill the check nor be mistaken for a refused size
                 try:
-                    r = S.use_mc_sample_size(size)(body)()
+                    if fn is None:
+                        raise ValueError("refused when the decorator was applied")
+                    r = fn()
                     res = "ok" if r is token else "ok-but-result-changed"
-                except Boom as e:
-                    res = "raised" if e.args == (id(token),) else "raised-other"
-                except Exception:  # noqa: BLE001
-                    res = "reject"
+                except BaseException as e:  # noqa: BLE001
+                    if exc is not None and e is exc:
+                        res = outcome_label(name)
+                    elif isinstance(e, Exception):
+                        # not the body's exception: the decorator's own request was refused (or the
+                        # body's exception was replaced by another one)
+                        res = "reject"
+                    elif isinstance(e, KeyboardInterrupt) and e.args != (id(token),):
+                        raise     # a real Ctrl-C, not one of ours
+                    else:
+                        res = "raised-other:" + type(e).__name__
                 trace.append({"t": "exit", "r": res, "cfg": state(q)})
                 continue
             try:
@@ -313,6 +420,7 @@ def execute(q, prog, via_attr=False):
             except Exception:  # noqa: BLE001  (any exception raised for the request = reject)
                 res = "reject"
             trace.append({"t": "op", "r": res, "cfg": state(q)})
+    pre(prog)
     run(prog)
     return trace
 
@@ -335,7 +443,7 @@ def documented(q, op, a):
         return False
     if op in ("sig_fig_value", "set_sig_figs_for_value", "set_sig_figs_for_error",
               "set_monte_carlo_sample_size"):
-        if k == "bool":
+        if k == "bool" or (k == "other" and a.get("what") in NOT_JUDGED_NUMBERS):
             return None
         return k == "int" and a["v"] > 0
     if op == "set_plot_dimensions":
@@ -343,7 +451,7 @@ def documented(q, op, a):
             return False
         ok = True
         for x in a["v"]:
-            if x["k"] == "bool":
+            if x["k"] == "bool" or (x["k"] == "other" and x.get("what") in NOT_JUDGED_NUMBERS):
                 return None
             if x["k"] == "int":
                 ok = ok and x["v"] > 0
@@ -415,14 +523,17 @@ def direct_oracles(q, prog, trace, start, fresh):
                     after_body = walk(s["body"], inside)
                     ex = trace[pos[0]]
                     pos[0] += 1
-                    want = "raised" if s.get("raise") else "ok"
+                    want = outcome_label(raise_name(s))
                     if ex["r"] != want:
                         fail("c20:temp-outcome:" + str(ex["r"]), "outcome of the wrapped computation "
                              "is not propagated unchanged", "outcome propagated", impl=ex["r"],
                              expected=want)
                     if ex["cfg"]["mc"] != before["mc"]:
+                        # whatever the outcome: return, Exception, or a BaseException that is not an
+                        # Exception (KeyboardInterrupt, SystemExit, GeneratorExit, custom)
                         fail("c20:temp-restore:" + want, "sample size not restored after the wrapped "
-                             "computation " + ("raised" if s.get("raise") else "returned"),
+                             "computation " + ("raised " + raise_name(s) if raise_name(s)
+                                               else "returned"),
                              "temporary override restored", impl=ex["cfg"]["mc"], expected=before["mc"])
                     if any(ex["cfg"][f] != after_body[f] for f in after_body if f != "mc"):
                         fail("c20:temp-frame-exit", "leaving the override changed another option",
@@ -492,6 +603,41 @@ def direct_oracles(q, prog, trace, start, fresh):
     return fails
 
 
+def event_stmts(prog, trace):
+    """the statement that produced each event of a trace (enter and exit -> the temp statement)"""
+    out = {}
+    pos = [0]
+
+    def walk(stmts):
+        for s in stmts:
+            if pos[0] >= len(trace):
+                return
+            if s["op"] == "temp":
+                out[pos[0]] = s
+                entered = trace[pos[0]].get("t") == "enter"
+                pos[0] += 1
+                if entered:
+                    walk(s["body"])
+                    out[pos[0]] = s
+                    pos[0] += 1
+            else:
+                out[pos[0]] = s
+                pos[0] += 1
+    walk(prog)
+    return out
+
+
+def judged(q, s):
+    """(op, kind of the argument, is the acceptance of this request judged by the statement?)"""
+    if s is None:
+        return "len", "-", True
+    if s["op"] == "temp":
+        return "temp", kind_of(s["size"]), documented(q, "set_monte_carlo_sample_size", s["size"]) is not None
+    if "arg" in s:
+        return s["op"], kind_of(s["arg"]), documented(q, s["op"], s["arg"]) is not None
+    return s["op"], "-", True
+
+
 # ------------------------------------------------------------------ generators
 def gen_stmt(rng, alpha, depth):
     r = rng.random()
@@ -504,7 +650,9 @@ def gen_stmt(rng, alpha, depth):
                            A_float(10.0), A_NONE, A_bool(True), A_str("100")]
                           if rng.random() < 0.3 else [A_int(rng.randint(1, 10 ** 6))])
         body = [gen_stmt(rng, alpha, depth + 1) for _ in range(rng.randint(0, 4))]
-        return {"op": "temp", "size": size, "raise": rng.random() < 0.5, "body": body}
+        r = rng.random()
+        rz = False if r < 0.4 else True if r < 0.6 else rng.choice(sorted(RAISES))
+        return {"op": "temp", "size": size, "raise": rz, "body": body, "early": rng.random() < 0.5}
     op = rng.choice(SET_OPS)
     if rng.random() < 0.55:
         arg = valid_arg(rng, op, alpha)
@@ -557,10 +705,39 @@ def single_call_programs(q, alpha):
             if op in ATTR:
                 progs.append(pre[:3] + [{"op": op, "arg": a, "attr": True},
                                         {"op": "set_sig_figs_for_error", "arg": A_int(2)}])
-    for _, a in alpha:   # the override with every argument as its size, returning and raising
-        for rz in (False, True):
-            progs.append(pre[2:3] + [{"op": "temp", "size": a, "raise": rz,
+    # the override with every argument as its size, with every way the body can end: returning,
+    # raising an Exception, raising a BaseException that is not an Exception; decorated right
+    # before the call / before the program starts
+    ends = [False] + sorted(RAISES)
+    for i, (_, a) in enumerate(alpha):
+        for j, rz in enumerate(ends):
+            progs.append(pre[2:3] + [{"op": "temp", "size": a, "raise": rz, "early": (i + j) % 2 == 1,
                                       "body": [{"op": "read"}]}, {"op": "read"}])
+    # ... and with a body that changes options (the size itself included) before it ends, nested
+    for rz in ends:
+        for rz2 in ends:
+            for early in (False, True):
+                inner = {"op": "temp", "size": A_int(31), "raise": rz2, "early": early,
+                         "body": [{"op": "set_monte_carlo_sample_size", "arg": A_int(9)},
+                                  {"op": "set_print_style", "arg": A_str("scientific")}]}
+                progs.append(pre[2:3] + [{"op": "temp", "size": A_int(55), "raise": rz, "early": early,
+                                          "body": [{"op": "set_unit_style", "arg": A_str("fraction")},
+                                                   inner, {"op": "read"}]}, {"op": "read"}])
+    # ... in a session that still has the default size, with the default / the current size as the
+    # temporary one, and with a body that changes the size while the temporary size equals the saved
+    for rz in ends:
+        for k in (55, 10000):
+            progs.append([{"op": "temp", "size": A_int(k), "raise": rz,
+                           "body": [{"op": "set_monte_carlo_sample_size", "arg": A_int(9)}]},
+                          {"op": "read"}])
+            progs.append(pre[2:3] + [{"op": "temp", "size": A_int(k), "raise": rz,
+                                      "body": [{"op": "read"}]}, {"op": "read"}])
+        progs.append(pre[2:3] + [{"op": "temp", "size": A_int(777), "raise": rz,
+                                  "body": [{"op": "set_monte_carlo_sample_size", "arg": A_int(9)}]},
+                                 {"op": "read"}])
+        # the same decorated statement twice (one decorator, two wrapped bodies)
+        t = {"op": "temp", "size": A_int(55), "raise": rz, "body": [{"op": "read"}]}
+        progs.append([t, {"op": "set_monte_carlo_sample_size", "arg": A_int(4321)}, t, {"op": "read"}])
     return progs
 
 
@@ -571,7 +748,7 @@ def thorough_alphabet(q, alpha, level):
     def pick(kinds_vals):
         return kinds_vals
     if level == "full":      # length <= 2
-        args = [a for _, a in alpha]
+        args = [a for k, a in alpha if k not in EXT_KINDS]
     elif level == "medium":  # length 3
         args = [A_enum("ErrorMethod", "MONTE_CARLO"), A_enum("PrintStyle", "LATEX"),
                 A_enum("UnitStyle", "FRACTION"), A_str("latex"), A_str("monte-carlo"),
@@ -597,9 +774,14 @@ def thorough_alphabet(q, alpha, level):
             inv = [s for s in mine if documented(q, op, s["arg"]) is False]
             keep += val[:2] + inv[:1]
         stmts = [{"op": "reset"}] + keep
-    stmts.append({"op": "temp", "size": A_int(55), "raise": True,
+    # length-4 sequences: the raising override ends in a KeyboardInterrupt (not an Exception); the
+    # longer alphabets carry both an Exception and a non-Exception ending
+    stmts.append({"op": "temp", "size": A_int(55), "raise": "KeyboardInterrupt" if level == "small" else True,
                   "body": [{"op": "set_monte_carlo_sample_size", "arg": A_int(9)}]})
-    stmts.append({"op": "temp", "size": A_int(66), "raise": False,
+    if level != "small":
+        stmts.append({"op": "temp", "size": A_int(77), "raise": "SystemExit" if level == "full" else "BaseBoom",
+                      "body": [{"op": "set_monte_carlo_sample_size", "arg": A_int(8)}]})
+    stmts.append({"op": "temp", "size": A_int(66), "raise": False, "early": True,
                   "body": [{"op": "set_print_style", "arg": A_str("scientific")}]})
     if level != "small":
         stmts.append({"op": "temp", "size": A_int(0), "raise": False, "body": [{"op": "reset"}]})
@@ -641,8 +823,18 @@ def compare(q, progs, ctx, ref=False, fresh=None, dist=None):
             bad = (min(len(tr), len(mt)), None, None)
         if bad and not df:
             i, a, b = bad
-            failures.append({"signature": "c20:trace:{}".format(
-                (a or {}).get("t", "len")), "kind": "disagreement",
+            op, kind, is_judged = judged(q, event_stmts(p, tr).get(i))
+            if not is_judged and a is not None and a.get("r") != b.get("r"):
+                # model and implementation differ on whether an argument is accepted about which
+                # the statement is silent (bool where an int is expected, the AUTO member, numbers
+                # that are neither int nor float): the model follows the unchanged code there, and a
+                # difference is not a failure of the property (the translator reports the changed
+                # setter; without a failing input the run ends in no-failing-input-found)
+                if dist is not None:
+                    dist["trace difference on a not-judged argument (ignored)"] += 1
+                continue
+            failures.append({"signature": "c20:trace:{}:{}:{}".format(
+                (a or {}).get("t", "len"), op, kind), "kind": "disagreement",
                 "what": "implementation and model traces differ at event {}".format(i),
                 "input": p, "impl": a, "expected": b})
         elif bad and df and not ref:
@@ -652,58 +844,81 @@ def compare(q, progs, ctx, ref=False, fresh=None, dist=None):
     return failures, traces
 
 
-def plotting_cases(q, fresh):
-    """the library's own use of the override: FunctionOnPlot.yvalues / yerr with a function that
-    returns and one that raises"""
+def plotting_cases(q, fresh, only=None):
+    """the library's own use of the override: FunctionOnPlot.yvalues / yerr with a curve function
+    that returns and one that raises — every class of RAISES, i.e. also KeyboardInterrupt (Ctrl-C
+    while an error band is computed), SystemExit, GeneratorExit and a direct BaseException subclass.
+    `only` = one stored input (replay)."""
     from qexpy.plotting.plotobjects import FunctionOnPlot
     fails, n = [], 0
-    for attr in ("yvalues", "yerr"):
-        for raises in (False, True):
-            for before in (777, 123456):
-                new_session(q)
-                q.set_monte_carlo_sample_size(before)
-                q.set_print_style("latex")
-                s0 = state(q)
-                seen = []
+    cases = [{"plot": attr, "raises": rz, "size_before": before,
+              "history": ["q.set_monte_carlo_sample_size({})".format(before),
+                          "q.set_print_style('latex')",
+                          "FunctionOnPlot(f, xrange=(0.0, 1.0)).{}   # f(x) {}".format(
+                              attr, "raises " + rz if rz else "returns 2*x"),
+                          "read q.get_settings()"]}
+             for attr in ("yvalues", "yerr") for rz in [False] + sorted(RAISES)
+             for before in (777, 123456)]
+    if only is not None:
+        rz = only.get("raises")
+        cases = [{"plot": only.get("plot", "yvalues"), "raises": "Boom" if rz is True else rz,
+                  "size_before": only.get("size_before", 777)}]
+    try:
+        for inp in cases:
+            attr, name, before = inp["plot"], inp["raises"] or None, inp["size_before"]
+            new_session(q)
+            q.set_monte_carlo_sample_size(before)
+            q.set_print_style("latex")
+            s0 = state(q)
+            seen = []
+            exc = RAISES[name]("plot") if name else None
 
-                def make(raises, seen):
-                    def f(x):
-                        seen.append(state(q))
-                        if raises:
-                            raise Boom("plot")
-                        return x * 2
-                    return f
-                f = make(raises, seen)
-                out = None
-                try:
-                    fp = FunctionOnPlot(f, xrange=(0.0, 1.0))
-                    getattr(fp, attr)
-                    out = "ok"
-                except Boom:
-                    out = "raised"
-                except Exception as e:  # noqa: BLE001
+            def make(exc, seen):       # (one parameter only: FunctionOnPlot inspects the signature)
+                def f(x):
+                    seen.append(state(q))
+                    if exc is not None:
+                        raise exc
+                    return x * 2
+                return f
+            f = make(exc, seen)
+            out = None
+            try:
+                fp = FunctionOnPlot(f, xrange=(0.0, 1.0))
+                getattr(fp, attr)
+                out = "ok"
+            except BaseException as e:  # noqa: BLE001  (SystemExit etc. must not end the check)
+                if exc is not None and e is exc:
+                    out = outcome_label(name)
+                elif isinstance(e, KeyboardInterrupt):
+                    raise      # a real Ctrl-C
+                else:
                     out = "other:" + type(e).__name__
-                n += 1
-                s1 = state(q)
-                inp = {"plot": attr, "raises": raises, "size_before": before}
-                if out != ("raised" if raises else "ok"):
-                    fails.append({"signature": "c20:plot-outcome:" + out, "kind": "violation",
-                                  "oracle": "independent", "what": "outcome of the curve function "
-                                  "not propagated through FunctionOnPlot." + attr, "input": inp,
-                                  "impl": out, "clause": "outcome propagated"})
-                if s1 != s0:
-                    fails.append({"signature": "c20:temp-restore:plot:" + ("raised" if raises else "ok"),
-                                  "kind": "violation", "oracle": "independent",
-                                  "what": "options not restored after FunctionOnPlot.{} ({})".format(
-                                      attr, "function raised" if raises else "function returned"),
-                                  "input": inp, "impl": s1, "expected": s0,
-                                  "clause": "temporary override restored"})
-                if seen and any(seen[0][k] != s0[k] for k in s0 if k != "mc"):
-                    fails.append({"signature": "c20:temp-frame:plot", "kind": "violation",
-                                  "oracle": "independent", "what": "override changed another option",
-                                  "input": inp, "impl": seen[0], "expected": s0,
-                                  "clause": "override changes only the sample size"})
-    new_session(q)
+            n += 1
+            s1 = state(q)
+            want = outcome_label(name)
+            if out != want:
+                fails.append({"signature": "c20:plot-outcome:" + out, "kind": "violation",
+                              "oracle": "independent", "what": "outcome of the curve function "
+                              "not propagated through FunctionOnPlot." + attr, "input": inp,
+                              "impl": out, "expected": want, "clause": "outcome propagated"})
+            if s1 != s0:
+                fails.append({"signature": "c20:temp-restore:plot:" + want,
+                              "kind": "violation", "oracle": "independent",
+                              "what": "options not restored after FunctionOnPlot.{} ({})".format(
+                                  attr, "function raised " + name if name else "function returned"),
+                              "input": inp, "impl": s1, "expected": s0,
+                              "clause": "temporary override restored"})
+            if not seen:
+                fails.append({"signature": "c20:plot-not-run", "kind": "violation",
+                              "oracle": "independent", "what": "curve function was not called",
+                              "input": inp, "clause": "wrapped computation runs"})
+            if seen and any(seen[0][k] != s0[k] for k in s0 if k != "mc"):
+                fails.append({"signature": "c20:temp-frame:plot", "kind": "violation",
+                              "oracle": "independent", "what": "override changed another option",
+                              "input": inp, "impl": seen[0], "expected": s0,
+                              "clause": "override changes only the sample size"})
+    finally:
+        new_session(q)
     return fails, n
 
 
@@ -757,7 +972,7 @@ def correspond(ctx, ref=False, boost=1):
     CH = 20000
     for i in range(0, len(progs), CH):
         chunk = progs[i:i + CH]
-        fs, traces = compare(q, chunk, ctx, ref=ref, fresh=fresh)
+        fs, traces = compare(q, chunk, ctx, ref=ref, fresh=fresh, dist=dist)
         failures += fs
         for p, (start, tr) in zip(chunk, traces):
             evals += 1
@@ -820,16 +1035,46 @@ def search(ctx, broken):
     return out
 
 
+def refresh_model():
+    """regenerate the settings tables from the CURRENT tree and rebuild the model driver (the replay
+    path of vf/check.py does not translate: without this a replay would compare with the driver of
+    whatever tree was checked last).  Returns the translator's reasons for a broken tie, or None when
+    the driver could not be rebuilt."""
+    try:
+        import translate
+        broken = []
+        for sec in SECTIONS:
+            fname, text, br = translate.SECTIONS[sec]()
+            translate.write_if_changed(os.path.join(translate.GEN, fname), text)
+            broken += br
+        rc, _, _ = C.lake_build(["driver"])
+        return broken if rc == 0 else None
+    except Exception:  # noqa: BLE001
+        return None
+
+
 def replay(ctx, rp):
     import qexpy as q
     f = rp.get("failure", {})
     p = f.get("input")
     if isinstance(p, dict) and "plot" in p:
-        fs, _ = plotting_cases(q, fresh_process_state())
+        fs, _ = plotting_cases(q, fresh_process_state(), only=p)
         return {"fails": bool(fs), "failures": fs}
     if not isinstance(p, list):
         return {"fails": False, "note": "replay file carries no concrete input", "payload": rp}
     fresh = fresh_process_state()
+    tie = refresh_model()
     fs, traces = compare(q, [p], ctx, fresh=fresh)
     ff, _ = fresh_checks(q, ctx)
-    return {"fails": bool(fs or ff), "trace": traces[0][1], "failures": fs + ff}
+    note = None
+    if tie is None or tie:
+        # no proved model for this tree: only the property's own oracles (independent of the
+        # generated tables) can say that the stored input fails
+        note = ("model driver not rebuilt" if tie is None else "translator tie broken: " + "; ".join(tie)) + \
+            " - judged by the direct property oracles only"
+        fs = [x for x in fs if x.get("oracle") == "independent"]
+        ff = []
+    out = {"fails": bool(fs or ff), "trace": traces[0][1], "failures": fs + ff}
+    if note:
+        out["note"] = note
+    return out
